@@ -242,6 +242,7 @@ pub fn run(ctx: &Ctx, rep: &mut Report) {
     }
     super::c14::giant_buffer_probe(ctx, rep, PID, gen::pm(&[13]), &mut r);
     super::c04::corner_sampler(ctx, rep, PID, 13, &mut r, 20_000, 400_000);
+    super::c14::wrap_probe(ctx, rep, PID, crate::gen::pm(&[13]), &mut r);
     rep.require("decoded");
     rep.sample(3, || {
         let mut o = J::obj();
